@@ -1,6 +1,16 @@
 """Configuration of ./check C11 (see lib/registry.py for the fields)."""
-DEBUG = dict(
-    claim="debug", props="Props/C08.v", theorems=[],
+CFG = dict(
+    claim="Theorems of coq/Props/C11.v, liveness as safety over ALL runs: client (Model/Client.v): C11_client_hold_live (Q: the multiplexer read "
+          "loop is held only by a registered open stream with a LIVE context whose loop offers a message its user has not asked for - never by a "
+          "cancelled, returned or torn-down call), C11_probe (Q: a unary call has returned, or waits with a live context, an empty queue and "
+          "its registration intact: after its deadline it has returned whatever other calls do), C11_client_all_routed, "
+          "C11_teardown_never_stuck + C11_no_defer_at_rest (the one lock-held-while-waiting state cannot deadlock); server (Model/Server.v): "
+          "C11_server_held (Q: the forwarding read loop is held only by a registered stream whose handler context is live and whose queue is "
+          "full), C11_server_returned (Q: a returned handler waits for the registry lock only behind ANOTHER live stream or a reset hand-off). "
+          "Both models are tied lock-step to the real code; the rig adds the mutex-deadlock watchdog.",
+    props="Props/C11.v",
+    theorems=["C11_client_hold_live", "C11_probe", "C11_client_all_routed", "C11_teardown_never_stuck", "C11_no_defer_at_rest",
+              "C11_server_held", "C11_server_returned"],
     imports=["Model.Client", "Check.ClientC", "Model.Protocol", "Check.CwC", "Check.C11c"],
     case_type="cwcase", find_bad_from="find_bad_from", go_tags="cw",
     rigs=[dict(test="TestC11", timeout_quick=600, timeout_thorough=2400)],
@@ -8,4 +18,12 @@ DEBUG = dict(
                  "2": "at the final quiescent point, with both wires drained, a call is still blocked, or a unary call (the probe, an RPC in flight) did not get its answer / its context's error",
                  "3": "the run wedged: a goroutine waits for a mutex for ever (watchdog: quiescent-with-lock-waiters)",
                  "4": "a registry lock is held at the final quiescent point (a read loop is parked inside its critical section)"},
-    rule="debug")
+    rule="end-to-end lock-step in synctest bubbles + watchdog for mutex waiters: 3 stream kinds x handlers returning after k of n client messages, "
+         "r of them arrived before the return (all 0 <= k <= r <= n, k < n <= 4; thorough n <= 8) x 0..2 other RPCs in flight (gated unary, idle "
+         "bidi stream) x probe unary call afterwards with and without deadline; callers abandoning with m = 0..4 (8) responses unread by "
+         "cancel / deadline / just not reading (back-pressure by a live caller, released at the end) x others x probe; peers that send more than "
+         "expected (replies to a unary call whose caller has gone, duplicate replies, bodies after the trailer, unread bodies then cancel, 1..4 "
+         "(8) extra) x probe; judged: client half against Model/Client.v, at the final quiescent point every call has returned, every unary "
+         "call got its answer (or its context's error), no registry lock is held; a wedge (probe pending / watchdog) is a failing input",
+    assumptions=["payloads are opaque tokens; wires FIFO and lossless",
+                 "quiescence = testing/synctest durable blocking; a goroutine blocked on sync.Mutex is detected by the real-time watchdog (600 ms without progress)"])
